@@ -689,6 +689,10 @@ impl<'w, 'a, 'b, 'c> World<'w, 'a, 'b, 'c> {
 				for chan in chans {
 					for id in self.pending_of(n, &chan) {
 						self.complete(n, chan, id);
+						// let the manager see this MonitorEvent::Completed before the next completion:
+						// a relaxed persister may answer Completed again only once the manager has
+						// nothing of the channel in flight
+						self.drain();
 						any = true;
 					}
 				}
